@@ -22,7 +22,9 @@ import (
 	"time"
 
 	"github.com/lestrrat-go/jwx/v2/jwa"
+	"github.com/lestrrat-go/jwx/v2/jws"
 	"github.com/lestrrat-go/jwx/v2/jwt"
+	ssi "github.com/nuts-foundation/go-did"
 	"github.com/nuts-foundation/go-did/did"
 	"github.com/nuts-foundation/go-did/vc"
 	"github.com/nuts-foundation/nuts-node/auth/oauth"
@@ -45,6 +47,51 @@ func c05HTTPCtx() context.Context {
 const c05VerifierURL = "https://example.com/oauth2/verifier"
 const c05HolderURL = "https://example.com/oauth2/holder"
 
+// tenants of the node under test. Verifier-side kinds (token endpoint, direct_post) are at home at "verifier",
+// holder-side kinds (request.jwt, user landing) at "holder"; tenant B is another subject of the same node.
+const c05OtherSubject = "verifier2"
+
+func c05TenantSubject(verifierSide bool, tenant string) string {
+	switch {
+	case tenant == "B":
+		return c05OtherSubject
+	case verifierSide:
+		return c05VerifierSubject
+	}
+	return c05HolderSubject
+}
+
+func c05TenantURL(verifierSide bool, tenant string) string {
+	return "https://example.com/oauth2/" + c05TenantSubject(verifierSide, tenant)
+}
+
+// c05JWTPresentation builds and signs a JWT presentation like vcr/test.CreateJWTPresentation does, but with full control
+// over the wire form of the aud claim and over the time claims.
+func c05JWTPresentation(x *h.Ctx, subjectDID did.DID, aud any, nonce string, notBefore, expires time.Time, credentials ...vc.VerifiableCredential) string {
+	payload, err := json.Marshal(map[string]any{
+		"sub":   subjectDID.String(),
+		"jti":   subjectDID.String() + "#c05-presentation",
+		"nbf":   notBefore.Unix(),
+		"exp":   expires.Unix(),
+		"nonce": nonce,
+		"aud":   aud,
+		// marshalled from the struct, as the repository's helper does (a single credential becomes an object, not a list)
+		"vp": vc.VerifiablePresentation{
+			Type:                 []ssi.URI{vc.VerifiablePresentationTypeV1URI()},
+			VerifiableCredential: credentials,
+		},
+	})
+	x.NoErr(err, "jwt vp payload")
+	key, err := ecdsa.GenerateKey(elliptic.P256(), rand.Reader)
+	x.NoErr(err, "jwt vp key")
+	hdr := jws.NewHeaders()
+	x.NoErr(hdr.Set(jws.KeyIDKey, subjectDID.String()+"#1"), "kid")
+	x.NoErr(hdr.Set(jws.TypeKey, "JWT"), "typ")
+	signed, err := jws.Sign(payload, jws.WithKey(jwa.ES256, key, jws.WithProtectedHeaders(hdr)))
+	x.NoErr(err, "sign jwt vp")
+	return string(signed)
+}
+
 func init() {
 	// --- (2) service-to-service presentation nonce, handleS2SAccessTokenRequest -> validateS2SPresentationNonce ---
 	c05Register(&c05Kind{
@@ -53,6 +100,10 @@ func init() {
 		claims: []string{"created=-4s", "created=+4s", "created=-4s,valid=1s", "created=+4s,valid=1s", "created=+0s,valid=1s", "created=-9s", "created=+10s"},
 		// the (time-faithful) verifier mock refuses the presentation outside its window, so one acceptance for ever
 		window: func(string) time.Duration { return 0 },
+		// how the presentation is addressed: JSON-LD proof.domain (single value; "" = tenant A) or the aud claim of a JWT
+		// presentation: one tenant, both tenants of this node in either order, plain-string form
+		auds:    []string{"ld:B", "jwt:A", "jwt:A,B", "jwt:B,A", "jwt:A-string", "jwt:B"},
+		tenants: true, verifierSide: true,
 		setup: func(x *h.Ctx, fx *c05Fixture, claims string) (string, func(string, int) c05Outcome) {
 			t, ok := x.TB.(*testing.T)
 			if !ok {
@@ -79,13 +130,34 @@ func init() {
 				validity = v
 			}
 			expires := created.Add(validity)
-			presentation := test.CreateJSONLDPresentation(t, *subjectDID, test.LDProofVisitor(func(p *proof.LDProof) {
-				p.Domain = &domain
-				p.Nonce = &nonce
-				p.Created = created
-				p.Expires = &expires
-			}), credential)
-			raw := presentation.Raw()
+			var raw string
+			if strings.HasPrefix(fx.aud, "jwt:") {
+				// JWT presentation, signed with a throw-away key; aud in the given shape (list order, or a plain string)
+				var aud any
+				if spec := strings.TrimPrefix(fx.aud, "jwt:"); strings.HasSuffix(spec, "-string") {
+					aud = c05TenantURL(true, strings.TrimSuffix(spec, "-string"))
+				} else {
+					var l []string
+					for _, tnt := range strings.Split(spec, ",") {
+						l = append(l, c05TenantURL(true, tnt))
+					}
+					aud = l
+				}
+				raw = c05JWTPresentation(x, *subjectDID, aud, nonce, created, expires, credential)
+			} else {
+				if fx.aud == "ld:B" {
+					domain = c05TenantURL(true, "B")
+				} else if fx.aud != "" {
+					x.Fatalf("unknown aud variant %q", fx.aud)
+				}
+				presentation := test.CreateJSONLDPresentation(t, *subjectDID, test.LDProofVisitor(func(p *proof.LDProof) {
+					p.Domain = &domain
+					p.Nonce = &nonce
+					p.Created = created
+					p.Expires = &expires
+				}), credential)
+				raw = presentation.Raw()
+			}
 			fx.policy.EXPECT().PresentationDefinitions(gomock.Any(), scope).DoAndReturn(func(_ context.Context, _ string) (pe.WalletOwnerMapping, error) {
 				var pd pe.PresentationDefinition
 				if err := json.Unmarshal([]byte(pdJSON), &pd); err != nil {
@@ -97,6 +169,14 @@ func init() {
 			// usable value at all: the time window of its proof, checked exactly as the real signature verifier does
 			// (vcr/verifier/signature_verifier.go: ldProof.ValidAt(now, maxSkew) with maxSkew = 5s), on the harness clock.
 			fx.verifier.EXPECT().VerifyVP(gomock.Any(), true, true, gomock.Any()).DoAndReturn(func(p vc.VerifiablePresentation, _ bool, _ bool, _ any) ([]vc.VerifiableCredential, error) {
+				if p.Format() == vc.JWTPresentationProofFormat {
+					// jwtSignature(): jwt validation with the given clock and no skew: nbf <= now < exp, in whole seconds
+					now := fx.now().Truncate(time.Second)
+					if now.Before(p.JWT().NotBefore()) || !now.Before(p.JWT().Expiration()) {
+						return nil, errors.New("verification error: unable to validate JWT signature: token not valid at given time")
+					}
+					return p.VerifiableCredential, nil
+				}
 				ldProof, err := credentialpkg.ParseLDProof(p)
 				if err != nil {
 					return nil, err
@@ -106,8 +186,14 @@ func init() {
 				}
 				return p.VerifiableCredential, nil
 			}).AnyTimes()
-			request := func(_ string, _ int) c05Outcome {
-				resp, err := fx.w.handleS2SAccessTokenRequest(c05HTTPCtx(), c05HolderURL, c05VerifierSubject, scope, submissionJSON, raw)
+			request := func(_ string, i int) c05Outcome {
+				// the public token endpoint of the addressed tenant, grant type vp_token-bearer
+				clientID, sc, sub, assertion := "https://client.example.com/oauth2/client", scope, submissionJSON, raw
+				resp, err := fx.w.HandleTokenRequest(c05HTTPCtx(), HandleTokenRequestRequestObject{
+					SubjectID: c05TenantSubject(true, fx.tenant(i)),
+					Body: &HandleTokenRequestFormdataRequestBody{GrantType: oauth.VpTokenGrantType, ClientId: &clientID, Scope: &sc,
+						PresentationSubmission: &sub, Assertion: &assertion},
+				})
 				if err != nil {
 					return c05Outcome{Detail: c05Err(err)}
 				}
@@ -194,7 +280,8 @@ func init() {
 
 	// --- (4a) OpenID4VP nonce, HandleAuthorizeResponse -> handleAuthorizeResponseSubmission -> validatePresentationNonce ---
 	c05Register(&c05Kind{
-		name: "openid4vp-nonce",
+		name:    "openid4vp-nonce",
+		tenants: true, verifierSide: true,
 		setup: func(x *h.Ctx, fx *c05Fixture, claims string) (string, func(string, int) c05Outcome) {
 			const challenge = "the-openid4vp-nonce"
 			const state = "state"
@@ -218,11 +305,11 @@ func init() {
 			fx.verifier.EXPECT().VerifyVP(gomock.Any(), true, true, gomock.Any()).Return(nil, nil).AnyTimes()
 			vpToken := `{"type":"VerifiablePresentation", "verifiableCredential":{"type":"VerifiableCredential", "credentialSubject":{"id":"did:web:example.com:iam:holder"}},"proof":{"challenge":"` + challenge + `","domain":"` + c05VerifierURL + `","proofPurpose":"assertionMethod","type":"JsonWebSignature2020","verificationMethod":"did:web:example.com:iam:holder#0"}}`
 			submission := `{"id":"1", "definition_id":"1", "descriptor_map":[{"id":"1","format":"ldp_vc","path":"$.verifiableCredential"}]}`
-			request := func(_ string, _ int) c05Outcome {
+			request := func(_ string, i int) c05Outcome {
 				vp, sub, st := vpToken, submission, state
 				resp, err := fx.w.HandleAuthorizeResponse(context.Background(), HandleAuthorizeResponseRequestObject{
 					Body:      &HandleAuthorizeResponseFormdataRequestBody{VpToken: &vp, PresentationSubmission: &sub, State: &st},
-					SubjectID: c05VerifierSubject,
+					SubjectID: c05TenantSubject(true, fx.tenant(i)),
 				})
 				if err != nil {
 					return c05Outcome{Detail: c05Err(err)}
@@ -241,7 +328,8 @@ func init() {
 	for _, m := range []string{"get", "post"} {
 		m := m
 		c05Register(&c05Kind{
-			name: "request-object-" + m,
+			name:    "request-object-" + m,
+			tenants: true,
 			setup: func(x *h.Ctx, fx *c05Fixture, claims string) (string, func(string, int) c05Outcome) {
 				const id = "the-request-object-id"
 				audience := ""
@@ -254,13 +342,14 @@ func init() {
 				}
 				x.NoErr(fx.w.authzRequestObjectStore().Put(id, ro), "put request object")
 				fx.jar.EXPECT().Sign(gomock.Any(), gomock.Any()).Return("signed-request-object", nil).AnyTimes()
-				request := func(_ string, _ int) c05Outcome {
+				request := func(_ string, i int) c05Outcome {
 					var err error
 					var resp any
+					subject := c05TenantSubject(false, fx.tenant(i))
 					if m == "get" {
-						resp, err = fx.w.RequestJWTByGet(context.Background(), RequestJWTByGetRequestObject{SubjectID: c05HolderSubject, Id: id})
+						resp, err = fx.w.RequestJWTByGet(context.Background(), RequestJWTByGetRequestObject{SubjectID: subject, Id: id})
 					} else {
-						resp, err = fx.w.RequestJWTByPost(context.Background(), RequestJWTByPostRequestObject{SubjectID: c05HolderSubject, Id: id})
+						resp, err = fx.w.RequestJWTByPost(context.Background(), RequestJWTByPostRequestObject{SubjectID: subject, Id: id})
 					}
 					if err != nil {
 						return c05Outcome{Detail: c05Err(err)}
@@ -278,7 +367,8 @@ func init() {
 
 	// --- (5) user redirect token, handleUserLanding ("Burn on use", user.go) ---
 	c05Register(&c05Kind{
-		name: "user-redirect-token",
+		name:    "user-redirect-token",
+		tenants: true,
 		setup: func(x *h.Ctx, fx *c05Fixture, claims string) (string, func(string, int) c05Outcome) {
 			const token = "the-redirect-token"
 			details := UserDetails{Id: "test", Name: "John Doe", Role: "Caregiver"}
@@ -310,11 +400,12 @@ func init() {
 			fx.jar.EXPECT().Create(gomock.Any(), gomock.Any(), gomock.Any(), gomock.Any()).DoAndReturn(func(client did.DID, clientID string, authServerURL string, modifier requestObjectModifier) jarRequest {
 				return createJarRequest(client, clientID, authServerURL, modifier)
 			}).AnyTimes()
-			request := func(_ string, _ int) c05Outcome {
+			request := func(_ string, i int) c05Outcome {
 				status := 0
 				location := ""
 				echoCtx := mock.NewMockContext(fx.ctrl)
-				requestCtx, _ := user.CreateTestSession(context.Background(), c05HolderSubject)
+				// /oauth2/{subject}/user: the user session middleware creates the session for the subject in the path
+				requestCtx, _ := user.CreateTestSession(context.Background(), c05TenantSubject(false, fx.tenant(i)))
 				httpRequest := (&http.Request{Host: "example.com"}).WithContext(requestCtx)
 				echoCtx.EXPECT().QueryParam("token").Return(token).AnyTimes()
 				echoCtx.EXPECT().Request().Return(httpRequest).AnyTimes()
